@@ -89,8 +89,8 @@ CLAIMS = {
         '6/C13',
     ),
     'C14': (
-        "Lean 4 theorems: the boundary-aware raw-string tests of the (repaired) code equal the component-level prefix relation (raw_test_is_prefix); the documented semantics commutes with every injective renaming of components (desc_ren, verdict_ren, violating_ren, domain_ren); and the CODE MODEL does so for ALL rules - related names, batches, 'anything' with its de-duplication - as an exact equality of the whole outcome: model_outcome_ren / model_report_ren / model_verdict_ren_all / model_atoms_ren (same verdict class, same error kind, same report lines in the same order with every name renamed), via the generic isomorphism invariance model_iso; layerOf_ren, labels_ren / label_ren / nearest_alias_ren, isInternal_ren. Tie: every case evaluated on the real code under a collision-free and an adversarial renaming, outcomes compared up to renaming and with the model.",
-        'Layer-rule verdict invariance follows on the C05 domain from layer_verdict + layerOf_ren (not stated as one theorem); outside it invariance is checked on the implementation by the renaming runs. Trusted: Lean kernel, harness/driver.',
+        "Lean 4 theorems: the boundary-aware raw-string tests of the (repaired) code equal the component-level prefix relation (raw_test_is_prefix); the documented semantics commutes with every injective renaming of components (desc_ren, verdict_ren, violating_ren, domain_ren); and the CODE MODEL does so for ALL rules - related names, batches, 'anything' with its de-duplication - as an exact equality of the whole outcome: model_outcome_ren / model_report_ren / model_verdict_ren_all / model_atoms_ren (same verdict class, same error kind, same report lines in the same order with every name renamed), via the generic isomorphism invariance model_iso; the same for ALL layer rules (layer_model_iso, layer_verdict_ren, layer_report_ren: same verdict class, error kind incl. LayerMismatch, same report lines and layer tags) and for diagram rules (diagram_model_iso, diagram_verdict_ren, diagram_spec_ren: same class, report items permuted); layerOf_ren, labels_ren / label_ren / nearest_alias_ren, isInternal_ren. Tie: every case evaluated on the real code under a collision-free and an adversarial renaming, outcomes compared up to renaming and with the model.",
+        'Regex-defined layers and user regexes are not renamed (a renaming does not act on patterns). Trusted: Lean kernel, harness/driver.',
         TECH,
         '6/C14',
     ),
